@@ -106,84 +106,134 @@ def greedy (e : Env) : List (Str × Desc) → List Char → List Str → List St
     else if (applicable e d).any (taken.contains ·) then greedy e rest taken acc
     else greedy e rest (taken ++ applicable e d) (acc ++ [f])
 
+/-! the clauses, one definition each (`check` below only puts them together) -/
+
+abbrev Cand := Str × Str × Int × Desc          -- (type, name, priority, descriptor)
+
+/-- the loadable modules of a directory with their file names -/
+def candsOf (e : Env) (owner : Nat) (dir : Dir) : List (Str × Cand) :=
+  dir.files.filterMap fun f => (candidate e owner f).map fun c => (f.fname, c)
+
+def candOf (cands : List (Str × Cand)) (f : Str) : Option Cand := (cands.find? (·.1 == f)).map (·.2)
+
+/-- 1. nothing outside the chosen directory is opened -/
+def clause1 (dir : Dir) (o : Obs) : List Viol :=
+  (o.opened.filter fun f => !dir.files.any (·.fname == f)).map Viol.envDirUsed
+
+/-- 3. no insecure file is ever opened -/
+def clause3 (e : Env) (owner : Nat) (dir : Dir) (o : Obs) : List Viol :=
+  (o.opened.filter fun f =>
+    match dir.files.find? (·.fname == f) with
+    | some fl => !fileSecure e owner fl
+    | none => false).map Viol.insecureFileOpened
+
+/-- 3b. every secure one is looked at -/
+def clause3b (e : Env) (owner : Nat) (dir : Dir) (o : Obs) : List Viol :=
+  ((dir.files.filter (fileSecure e owner ·)).filter
+    (fun f => !o.opened.contains f.fname)).map (fun f => Viol.secureNotOpened f.fname)
+
+/-- 4. only loadable modules are listed -/
+def clause4 (cands : List (Str × Cand)) (listed : List Str) : List Viol :=
+  (listed.filter fun f => (candOf cands f).isNone).map Viol.notLoadable
+
+/-- 4b. no two listed modules with the same type and name -/
+def clause4b (cands : List (Str × Cand)) (listed : List Str) : List Viol :=
+  (listed.filter fun f =>
+    match candOf cands f with
+    | some c => (listed.filter fun g =>
+        match candOf cands g with
+        | some c' => c'.1 == c.1 && c'.2.1 == c.2.1
+        | none => false).length > 1
+    | none => false).map Viol.dupListed
+
+def better (cands : List (Str × Cand)) (c : Cand) : List (Str × Cand) :=
+  cands.filter fun x => x.2.1 == c.1 && x.2.2.1 == c.2.1 && x.2.2.2.1 > c.2.2.1
+
+def peers (cands : List (Str × Cand)) (f : Str) (c : Cand) : List (Str × Cand) :=
+  cands.filter fun x => x.1 != f && x.2.1 == c.1 && x.2.2.1 == c.2.1 && x.2.2.2.1 == c.2.2.1
+
+/-- 5. duplicates: the lower priority never -/
+def clause5 (cands : List (Str × Cand)) (listed : List Str) : List Viol :=
+  (cands.filter fun x => listed.contains x.1 && !(better cands x.2).isEmpty).map
+    (fun x => Viol.lowerDupListed x.1)
+
+/-- 5b. ... the best one always (equal priorities: one of them) -/
+def clause5b (cands : List (Str × Cand)) (listed : List Str) : List Viol :=
+  (cands.filter fun x => !listed.contains x.1 && (better cands x.2).isEmpty &&
+    !(peers cands x.1 x.2).any (fun y => listed.contains y.1)).map (fun x => Viol.missing x.1)
+
+def descOf (cands : List (Str × Cand)) (f : Str) : Option (Str × Desc) :=
+  (candOf cands f).map fun c => (f, c.2.2.2)
+
+/-- the names given with -M / PDSH_MISC_MODULES -/
+def specNames : Option Str → List Str
+  | none => []
+  | some s => splitComma s
+
+/-- `f` is a listed `misc` module named `nm` -/
+def isForced (cands : List (Str × Cand)) (nm : Str) (f : Str) : Bool :=
+  match candOf cands f with
+  | some c => c.1 == miscType && c.2.1 == nm
+  | none => false
+
+/-- the activation sequence: forced modules first (in -M order), then the list order -/
+def seqOf (e : Env) (cands : List (Str × Cand)) (listed : List Str) : List (Str × Desc) :=
+  ((specNames e.misc).filterMap fun nm => (listed.find? (isForced cands nm)).bind (descOf cands))
+  ++ listed.filterMap (descOf cands)
+
+/-- 7. activation -/
+def clause7 (e : Env) (cands : List (Str × Cand)) (o : Obs) : List Viol :=
+  let seq := seqOf e cands (o.listed.map (·.1))
+  let act := greedy e seq (baseOpts e.pers) []
+  if seq.any (fun x => x.2.init == some false) then []   -- text silent on failing initialisers
+  else
+    (o.listed.filter fun x => x.2 != act.contains x.1).map (fun x => Viol.active x.1 (act.contains x.1))
+    ++ (o.calls.filter fun f => !act.contains f).map Viol.initRan
+    ++ (act.filter fun f =>
+          match candOf cands f with
+          | some c => c.2.2.2.init.isSome && !o.calls.contains f
+          | none => false).map Viol.initNotRun
+
+/-- 8. option characters: handled only by an active module that has them; an applicable option of
+    an active module must reach it (unless pdsh itself owns the character) -/
+def hasOpt (cands : List (Str × Cand)) (f : Str) (c : Char) : Bool :=
+  match candOf cands f with
+  | some x => (x.2.2.2.opts.getD []).any (·.c == c)
+  | none => false
+
+def applOf (e : Env) (cands : List (Str × Cand)) (f : Str) (c : Char) : Bool :=
+  match candOf cands f with
+  | some x => (applicable e x.2.2.2).contains c
+  | none => false
+
+def activeFiles (o : Obs) : List Str := (o.listed.filter (·.2)).map (·.1)
+
+def clause8 (e : Env) (cands : List (Str × Cand)) (o : Obs) : List Viol :=
+  o.uses.flatMap fun (c, u) =>
+    match u with
+    | .handled f _ => if (activeFiles o).contains f && hasOpt cands f c then [] else [Viol.optAccepted c]
+    | _ =>
+      if (activeFiles o).any (applOf e cands · c) && !(baseOpts e.pers).contains c then [Viol.optRefused c]
+      else []
+
 def check (e : Env) (o : Obs) : List Viol :=
   let dir := dirFor e
   match e.owner with
   | none => if o.opened.isEmpty && o.fatal then [] else [.insecurePathLoaded]
   | some owner =>
-    -- 1. nothing outside the chosen directory
-    let v1 := (o.opened.filter fun f => !dir.files.any (·.fname == f)).map Viol.envDirUsed
     -- 2. insecure path: nothing is opened and the run fails
     if !dir.path.all (ancestorOk e owner) then
-      v1 ++ (if o.opened.isEmpty && o.fatal && o.listed.isEmpty then [] else [.insecurePathLoaded])
+      clause1 dir o ++ (if o.opened.isEmpty && o.fatal && o.listed.isEmpty then [] else [.insecurePathLoaded])
     else
-      -- 3. no insecure file is ever opened; every secure one is looked at
-      let v3 := (o.opened.filter fun f =>
-        match dir.files.find? (·.fname == f) with
-        | some fl => !fileSecure e owner fl
-        | none => false).map Viol.insecureFileOpened
-      let v3b := ((dir.files.filter (fileSecure e owner ·)).filter
-        (fun f => !o.opened.contains f.fname)).map (fun f => Viol.secureNotOpened f.fname)
-      let cands := dir.files.filterMap fun f => (candidate e owner f).map fun c => (f.fname, c)
-      let cand? (f : Str) := (cands.find? (·.1 == f)).map (·.2)
+      let cands := candsOf e owner dir
       if cands.isEmpty then
-        v1 ++ v3 ++ v3b ++ (if o.fatal && o.listed.isEmpty then [] else [.notLoadable []])
-      else if o.fatal then v1 ++ v3 ++ v3b ++ [.missing []]
+        clause1 dir o ++ clause3 e owner dir o ++ clause3b e owner dir o ++
+          (if o.fatal && o.listed.isEmpty then [] else [.notLoadable []])
+      else if o.fatal then clause1 dir o ++ clause3 e owner dir o ++ clause3b e owner dir o ++ [.missing []]
       else
         let listed := o.listed.map (·.1)
-        -- 4. only loadable modules are listed, no two with the same type and name
-        let v4 := (listed.filter fun f => (cand? f).isNone).map Viol.notLoadable
-        let v4b := (listed.filter fun f =>
-          match cand? f with
-          | some c => (listed.filter fun g =>
-              match cand? g with
-              | some c' => c'.1 == c.1 && c'.2.1 == c.2.1
-              | none => false).length > 1
-          | none => false).map Viol.dupListed
-        -- 5. duplicates: the lower priority never, the best one always
-        let better (c : Str × Str × Int × Desc) := cands.filter fun x =>
-          x.2.1 == c.1 && x.2.2.1 == c.2.1 && x.2.2.2.1 > c.2.2.1
-        let peers (f : Str) (c : Str × Str × Int × Desc) := cands.filter fun x =>
-          x.1 != f && x.2.1 == c.1 && x.2.2.1 == c.2.1 && x.2.2.2.1 == c.2.2.1
-        let v5 := (cands.filter fun x => listed.contains x.1 && !(better x.2).isEmpty).map
-          (fun x => Viol.lowerDupListed x.1)
-        let v5b := (cands.filter fun x => !listed.contains x.1 && (better x.2).isEmpty &&
-          !(peers x.1 x.2).any (fun y => listed.contains y.1)).map (fun x => Viol.missing x.1)
-        -- 6. listed in priority-then-name order (equal keys: any order)
-        let v6 := ordOk cand? listed
-        -- 7. activation: forced modules first (in -M order), then the list order
-        let descOf (f : Str) := (cand? f).map fun c => (f, c.2.2.2)
-        let forced := (match e.misc with | none => [] | some s => splitComma s).filterMap fun nm =>
-          (listed.find? fun f =>
-            match cand? f with
-            | some c => c.1 == miscType && c.2.1 == nm
-            | none => false).bind descOf
-        let seq := forced ++ listed.filterMap descOf
-        let initFails := seq.any fun x => x.2.init == some false
-        let act := greedy e seq (baseOpts e.pers) []
-        let v7 :=
-          if initFails then []          -- text silent on failing initialisers: clause not evaluated
-          else
-            (o.listed.filter fun x => x.2 != act.contains x.1).map (fun x => Viol.active x.1 (act.contains x.1))
-            ++ (o.calls.filter fun f => !act.contains f).map Viol.initRan
-            ++ (act.filter fun f =>
-                  match cand? f with
-                  | some c => c.2.2.2.init.isSome && !o.calls.contains f
-                  | none => false).map Viol.initNotRun
-        -- 8. option characters: handled only by an active module that has them
-        let activeFiles := (o.listed.filter (·.2)).map (·.1)
-        let hasOpt (f : Str) (c : Char) := match cand? f with
-          | some x => (x.2.2.2.opts.getD []).any (·.c == c)
-          | none => false
-        let appl (f : Str) (c : Char) := match cand? f with
-          | some x => (applicable e x.2.2.2).contains c
-          | none => false
-        let v8 := o.uses.flatMap fun (c, u) =>
-          match u with
-          | .handled f _ => if activeFiles.contains f && hasOpt f c then [] else [Viol.optAccepted c]
-          | _ =>
-            -- an applicable option of an active module must reach it (unless pdsh itself owns it)
-            if activeFiles.any (appl · c) && !(baseOpts e.pers).contains c then [Viol.optRefused c] else []
-        v1 ++ v3 ++ v3b ++ v4 ++ v4b ++ v5 ++ v5b ++ v6 ++ v7 ++ v8
+        clause1 dir o ++ clause3 e owner dir o ++ clause3b e owner dir o ++ clause4 cands listed ++
+          clause4b cands listed ++ clause5 cands listed ++ clause5b cands listed ++
+          ordOk (candOf cands) listed ++ clause7 e cands o ++ clause8 e cands o
 
 end PdshVerif.Mod.Spec
